@@ -909,7 +909,8 @@ impl GlyphDataOffsetArray for Gvar<'_> {
             flags &= 0b11111110;
         }
 
-        let max_new_size = orig_size + offsets.data.len();
+        // the offsets array is written anew as well and may be wider than the original one
+        let max_new_size = orig_size + offsets.data.len() + offsets.offset_array.len();
 
         // part 1 and 2 - write gvar header and offsets
         let mut serializer = Serializer::new(max_new_size);
